@@ -4,7 +4,7 @@ from props.c02 import gen_lit, trivia
 
 ID = 'C03'
 DOMAIN = 'parse'
-PROPS_FILES = ['Gin/Props/C03.lean', 'Gin/Props/C03b.lean', 'Gin/Props/C03c.lean']
+PROPS_FILES = ['Gin/Props/C03.lean', 'Gin/Props/C03b.lean', 'Gin/Props/C03c.lean', 'Gin/Props/C03d.lean', 'Gin/Props/C03e.lean']
 ANCHOR_FILES = ['config_parser.py', 'config.py']
 RULE = ('1-10 statements (bindings with scopes and dotted selectors, macro definitions, the four import forms with aliases, '
         'includes, references and macros as values) rendered in two independently drawn layouts: comment placement, blank '
